@@ -598,3 +598,57 @@ func EPOnlyDefence(r *rand.Rand) (ref.Pos, bool) {
 	}
 	return ref.Pos{}, false
 }
+
+// OpenLines builds a position in which one long-range piece of the side to move stands on an (almost) open
+// board with enemy men at the far ends of several of its lines: the extremes of mobility and of the number of
+// captures available to one piece (heuristics that scale with either meet their largest arguments here).
+func OpenLines(r *rand.Rand) (ref.Pos, bool) {
+	for try := 0; try < 200; try++ {
+		var p ref.Pos
+		p.EP = -1
+		p.White = true
+		p.Full = 1 + r.Intn(60)
+		p.Half = r.Intn(30)
+		sq := ref.Sq(2+r.Intn(4), 2+r.Intn(4))
+		kind := []int8{ref.Queen, ref.Queen, ref.Queen, ref.Rook, ref.Bishop}[r.Intn(5)]
+		p.B[sq] = kind
+		dirs := [8][2]int{{1, 0}, {0, 1}, {-1, 0}, {0, -1}, {1, 1}, {-1, 1}, {-1, -1}, {1, -1}}
+		for _, d := range dirs {
+			x, y := ref.File(sq), ref.Rank(sq)
+			for x+d[0] >= 0 && x+d[0] < 8 && y+d[1] >= 0 && y+d[1] < 8 {
+				x, y = x+d[0], y+d[1]
+			}
+			end := ref.Sq(x, y)
+			if end == sq || r.Intn(6) == 0 {
+				continue
+			}
+			v := []int8{ref.Knight, ref.Bishop, ref.Rook, ref.Knight, ref.Pawn}[r.Intn(5)]
+			if v == ref.Pawn && (y == 0 || y == 7) {
+				v = ref.Knight
+			}
+			p.B[end] = -v
+		}
+		// kings off the piece's lines
+		var free []int
+		for s := 0; s < 64; s++ {
+			if p.B[s] != 0 {
+				continue
+			}
+			dx, dy := ref.File(s)-ref.File(sq), ref.Rank(s)-ref.Rank(sq)
+			if dx == 0 || dy == 0 || dx == dy || dx == -dy {
+				continue
+			}
+			free = append(free, s)
+		}
+		if len(free) < 2 {
+			continue
+		}
+		r.Shuffle(len(free), func(i, j int) { free[i], free[j] = free[j], free[i] })
+		p.B[free[0]], p.B[free[1]] = ref.King, -ref.King
+		if !valid(&p) || p.InCheck(true) {
+			continue
+		}
+		return maybeFlip(r, p), true
+	}
+	return ref.Pos{}, false
+}
